@@ -29,7 +29,7 @@ class Contract:
 
     def __init__(self, name, target, setup, requires=None, ensures=None, raises=None, loops=None, callees=None,
                  canaries=(), dropped=(), decorators=None, generator=None, on_exit=None, note="", max_paths=400,
-                 class_models=None, timeout_ms=None, concretize=None, hints=None, stop_after=None):
+                 class_models=None, timeout_ms=None, concretize=None, hints=None, stop_after=None, stop_before=None):
         self.name, self.target, self.setup = name, target, setup
         self.requires = requires or (lambda ctx, st: [])
         self.ensures = ensures or (lambda ctx, st, ret: [])
@@ -45,6 +45,7 @@ class Contract:
         self.class_models = class_models or {}
         self.timeout_ms = timeout_ms
         self.concretize = concretize
+        self.stop_before = stop_before
         self.stop_after = stop_after    # text of the last statement of the verified prefix (ensures then receives the locals)
         self.hints = hints      # (ctx, st, skolem constants) -> terms to mention (guides hypothesis instantiation; adds no facts)
 
@@ -89,9 +90,12 @@ def run_contract(con, timeout_ms=10000, keep_models=True, verbose=False):
         core.CUR = ctx
         ip = Interp(ctx, registry=dict(con.callees))
         ip.class_models.update(con.class_models)
+        if con.stop_before is not None:
+            import ast as _ast
+            ip.stop_before = (lambda stmt, t=con.stop_before: _ast.unparse(stmt).replace(" ", "").replace('"', "'").startswith(t.replace(" ", "").replace('"', "'")))
         if con.stop_after is not None:
             import ast as _ast
-            ip.stop_after = (lambda stmt, t=con.stop_after: _ast.unparse(stmt).replace(" ", "").startswith(t.replace(" ", "")))
+            ip.stop_after = (lambda stmt, t=con.stop_after: _ast.unparse(stmt).replace(" ", "").replace('"', "'").startswith(t.replace(" ", "").replace('"', "'")))
         for k, spec in con.loops.items():
             ip.loop_specs[k] = spec
         outcome = None
